@@ -8,6 +8,12 @@ import subprocess
 ROOT = os.path.dirname(os.path.dirname(os.path.abspath(__file__)))
 
 CHECKS = {
+    'C01': dict(
+        engine='E1 bounded-exhaustive input sweep (in-process plan) + real binary',
+        technique='bounded-exhaustive enumeration of all argument texts x quoting styles x positions, planned by the real code and compared with the verbatim-argv reference; conformance replay of the small bound through the real binary',
+        text='Every argument text up to length 3 (thorough: 4, 3.3 M plans) over a 34-symbol metacharacter alphabet in each quoting style of the statement and six position templates, all ordered pairs of texts of length <= 1 in all style pairs and all lists of 0..6 operator-like arguments are planned by the real CommandLine::from_line in an adversarial environment (matching files, variables, aliases); the plan must be the verbatim argv with no background flag, redirection or assignment. The length <= 1 cases and operator-like pairs are also executed by the real binary.',
+        note='Texts longer than the bound and words mixing quoting styles are outside the bound; plan level is bound to execution by the replayed subset.',
+        ref='DESIGN.md §4 C01'),
     'C05': dict(
         engine='E1 bounded-exhaustive input sweep (in-process) + real binary',
         technique='bounded-exhaustive enumeration of all input strings up to a length over explicit alphabets, run through the real code (explicit-state style exploration, no sampling)',
